@@ -964,4 +964,9 @@ class Exec(Engine):
             return st.new_root(t, 'p')
         if key.startswith('Opt['):
             raise Unsupported('Opt sort must be split by the caller')
+        for p in self.models.plugins:
+            if hasattr(p, 'fresh_by_key'):
+                v = p.fresh_by_key(self, key, prefix, st)
+                if v is not None:
+                    return v
         return wrap(fresh(prefix, so.SORTS[key]))
